@@ -13,7 +13,8 @@ miss=0; alarm=0; n=0
 props_for_file() {
   case "$1" in
     int.go|long.go) echo C07;; double.go) echo C08;; date.go) echo C10;; string.go|binary.go) echo C09;;
-    encoder.go) echo "C11 C13";; decoder.go) echo "C06 C14";; pool.go) echo C17;; boolean.go) echo C01;; *) echo C01;;
+    encoder.go) echo "C11 C12 C13";; decoder.go) echo "C06 C14";; pool.go) echo C17;; boolean.go) echo C01;;
+    list.go|object.go|map.go) echo "C01 C02 C14";; *) echo C01;;
   esac
 }
 python3 - <<'PY' > $out/list.txt
